@@ -29,7 +29,7 @@ RULE = ('each run = generated tree with sub-Manifests, replicated twice; up to 6
         'microseconds to days; A runs `update --incremental`, B runs `update`; optionally a concurrent writer '
         'modifies one file right after A\'s running update closed it; non-trivial = at least one round modified '
         'a file; distinct = distinct seam event-log digest')
-PLAN = {'quick': {'n': 1200, 'budget_s': 55, 'block': 15},
+PLAN = {'quick': {'n': 4000, 'budget_s': 90, 'block': 15},
         'thorough': {'n': 40000, 'budget_s': 1200, 'block': 100}}
 ASSUMPTIONS = ['file mtimes are set explicitly (os.utime) from the simulated clock; the kernel only stores them',
                'TIMESTAMP lines are excluded from the replica comparison']
